@@ -14,6 +14,11 @@ STRUCT = [c for c in alphabet.COMPONENTS if c[0] in 'sor' and c not in ('rx', 'r
 PARTNERS = ['i1', 'i2l', 'dn', 'm0', 'b35', 'p_al2']
 
 
+def optimized_specs(tier):
+    """every component alone, once more under python -O (assert statements stripped)"""
+    return [{'names': [c], 'wrapper': 'a'} for c in alphabet.COMPONENTS if c not in globals().get('EXCLUDED', ())]
+
+
 def decl_specs(tier):
     specs = []
     seen = set()
@@ -79,14 +84,23 @@ def check_decl(dc, st, tier, only=None):
 
 def run(tier):
     st = ea.run(MODULE, tier)
+    from mc import ea_o
+    so = ea_o.run(MODULE, tier)         # every component alone once more under python -O (assert statements stripped)
+    st.merge(so)
+    st.notes.extend(so.notes)
     LADDER_NOTE = '; plus the shared size and structure ladders (mc/alphabet.py boundary_specs / structure_specs): lengths and counts 5, 8, 9, 16, 17, 32, 33, 64, 65, 128, 129, 255, 256, 257, 1024, 1025, 4096, 4097, 8192, 8193 behind one-, two- and three-byte length fields with their exact encodings (and the same cut short), constant counts and sizes 15..257 first in a packet, far positions (holes of 255..8192 bytes), chains of 4..8 references, lists of lists of lists, nine-byte integers, bit runs of 40/72/80 bits, declarations of 24 components and runs of 17..40 fixed fields, holders whose options differ from the held class, the nested class alone on the field-by-field loop'
     cov = ea.coverage(st, 'declarations over the repeated/optional/reference rows of the alphabet (count/condition as constant, field, '
                           'expression, callable; until; when; per-element alignment; selector references; nesting through wrappers), alone, '
                           'paired with each other and with plain neighbours; all inputs up to the bound; unpack vs the reference interpretation '
                           '(acceptance, values, end offset); states = distinct (declaration, wrapper, reference outcome, implementation outcome, input length)')
     cov['rule'] += LADDER_NOTE
+    cov['rule'] += '; every component alone once more in child interpreters started with -O'
+    cov['programs_under_python_O'] = st.n.get('programs_under_O', 0)
     return {'stats': st, 'coverage': cov, 'assumptions': ['reference interpreter mc/refsem.py (DESIGN.md appendix A)']}
 
 
 def replay(case):
+    if case.get('optimized') and sys.flags.optimize < 1:
+        from mc import ea_o
+        return ea_o.replay(MODULE, case)
     return ea.replay_decl(sys.modules[__name__], case)
